@@ -1057,6 +1057,11 @@ def gen_manual(rng, n, thens=("exit", "do", "do")):
         p["manual"] = {"recurs": rng.randint(0, 4), "then": rng.choice(list(thens))}
         if p["manual"]["then"] == "exit" and rng.random() < 0.4:
             p["manual"]["own_deeds"] = True
+            # ... and some doer asks for more than one scheduler tock, so that it is not due on some pass
+            p["manual"]["recurs"] = max(p["manual"]["recurs"], 3)
+            for d in p["defs"].values():
+                if d["kind"] != "nest" and len(d["script"]) > 2 and rng.random() < 0.6:
+                    d["script"][1]["out"] = ["y", 2 * abs(p["tock"])]
         if p["manual"]["then"] == "exit" and p["manual"]["recurs"] >= 2 and rng.random() < 0.3:
             # tick(tock=x) between two cycles: a one-off jump that leaves the scheduler's own tock alone (oracle only)
             p["manual"]["jump"] = {"after": rng.randint(0, p["manual"]["recurs"] - 2), "tock": rng.choice([1.0, 2.5, 0.125, 4.0])}
